@@ -302,6 +302,15 @@ def r_members(ctx, toks, cls, funcs, datas):
         if t.t == 'this' and i + 2 < n and toks[i + 1].t == '->' and toks[i + 2].k == 'id' and toks[i + 2].t in datas \
                 and not (i + 3 < n and toks[i + 3].t == '('):
             out.extend([I('self', t.ws), P('->', ''), Tok('id', toks[i + 2].t, '')]); i += 3; fire(ctx, 'this->member'); continue
+        if t.t == 'this' and i + 3 < n and toks[i + 1].t == '->' and toks[i + 2].k == 'id' and toks[i + 3].t == '(' and toks[i + 2].t in funcs \
+                and ((cls + '_' + toks[i + 2].t) in ctx.sigs or toks[i + 2].t in ctx.unit.get('member_calls', {})):
+            nm = toks[i + 2].t
+            tgt = ctx.unit.get('member_calls', {}).get(nm, cls + '_' + nm)
+            e = match_close(toks, i + 3)
+            out.append(Tok('id', tgt, t.ws)); out.append(P('(', '')); out.append(I('self', ''))
+            if e > i + 4:
+                out.append(P(',', ''))
+            i += 4; fire(ctx, 'this->member-call'); continue
         if t.t == 'this' and i + 1 < n and toks[i + 1].t == '->':
             i += 2; fire(ctx, 'this->'); continue     # falls through to bare member handling
         if t.t == '*' and i + 1 < n and toks[i + 1].t == 'this':
